@@ -21,8 +21,8 @@ PROPERTY = "C04"
 FUNCTIONS = ["Command.handle/_do_handle", "ConsoleApplication.run/exception_to_exit_code/resolve_command", "ExceptionTrace.render (simple and full)",
              "PreHandleEvent", "CallbackHandler.handle", "DefaultApplicationConfig.create_io"]
 PART = {}
-BOUNDS = {"quick": "handler result: every int; numeric strings str(n) for every int |n| <= 999; pinned floats/None/bools; exceptions: 9 classes x messages = 2-char strings over {<,>,/,b,newline,e-acute} spliced with tag fragments x 4 verbosities x 4 listener behaviours",
-          "thorough": "messages up to 3 symbolic characters, larger budgets"}
+BOUNDS = {"quick": "handler result: every int; numeric strings str(n) for every int |n| <= 999; pinned floats/None/bools; exceptions: 9 classes x messages 'E'+c1+fragment+c2+'Z' (c1,c2 in {<,>,/,b,newline,e-acute} or empty, 8 tag fragments) x 4 verbosity switches; 3 listener behaviours",
+          "thorough": "messages with up to 3 symbolic characters around the fragment"}
 OUTSIDE = ["BaseExceptions other than KeyboardInterrupt (SystemExit, GeneratorExit)", "messages with more symbolic characters than stated",
            "an error report is NOT demanded for KeyboardInterrupt (the repository's own test requires empty output there); only the non-zero status and no leak",
            "exceptions whose __str__ itself raises"]
@@ -33,6 +33,7 @@ STATE = {"calls": [], "result": None, "exc": None, "listener": 0}
 
 
 from harness import raisers
+from vf.sym import untraced
 
 
 _NS = {}
@@ -198,6 +199,10 @@ def run_exception(m1: str, m2: str, frag: int) -> bool:
         if frag == k:
             f = FRAGS[k]
     msg = "E" + _conc(m1, MSG_ALPHA) + f + _conc(m2, MSG_ALPHA) + "Z"
+    return untraced(_exception_case, kind, vi, lk, msg)       # everything is concrete from here on
+
+
+def _exception_case(kind, vi, lk, msg):
     STATE["result"], STATE["exc"], STATE["listener"], STATE["lstatus"] = 0, (kind, msg), lk, 3
     app = APP_L if lk else APP
     status, out, err = _run(app, ["work", "x"] + VERB[vi])
@@ -260,12 +265,10 @@ def conditions(tier):
     ]
     for kind in range(len(EXC_KINDS)):
         simple = EXC_KINDS[kind] in ("CliKitException", "MyCliError", "KeyboardInterrupt")
-        if simple:
-            plan = [(vi, l1, l2, None) for vi in ((0, 3) if quick else (0, 1, 2, 3)) for (l1, l2) in ([(0, 0), (1, 0), (0, 1)] if quick else [(0, 0), (1, 0), (0, 1), (1, 1), (2, 0)])]
-        elif quick:      # a full trace costs ~5 s per path under the engine: fewer, smaller partitions
-            plan = [(0, 0, 0, None), (0, 1, 0, 0), (0, 1, 0, 1)]
+        if quick:
+            plan = [(vi, l1, l2, None) for vi in (0, 1, 2, 3) for (l1, l2) in [(0, 0), (1, 0), (0, 1), (1, 1)]]
         else:
-            plan = [(vi, 0, 0, None) for vi in (0, 1, 2, 3)] + [(0, l1, l2, f) for (l1, l2) in [(1, 0), (0, 1), (1, 1)] for f in range(len(FRAGS))]
+            plan = [(vi, l1, l2, None) for vi in (0, 1, 2, 3) for (l1, l2) in [(0, 0), (1, 0), (0, 1), (1, 1), (2, 0), (2, 1), (1, 2)]]
         for vi, l1, l2, f in plan:
             conds.append({"name": "run_exception[%s,v%d,len%d+%d%s]" % (EXC_KINDS[kind], vi, l1, l2, "" if f is None else ",frag%d" % f), "fn": run_exception, "timeout": t,
                           "part": {"kind": kind, "vi": vi, "listener": 0, "l1": l1, "l2": l2, "frag": f},
@@ -274,7 +277,7 @@ def conditions(tier):
     for lk in (1, 2, 3):
         for kind in (0, 1):
             conds.append({"name": "run_listener[%s,%s]" % (["", "passes", "handles", "raises"][lk], EXC_KINDS[kind]), "fn": run_exception, "timeout": t,
-                          "part": {"kind": kind, "vi": 0, "listener": lk, "l1": 1, "l2": 0, "frag": 1},
+                          "part": {"kind": kind, "vi": 0, "listener": lk, "l1": 1, "l2": 1, "frag": None},
                           "bounds": "pre-handle listener that %s; handler would raise %s" % (["", "passes", "handles with status 3", "raises"][lk], EXC_KINDS[kind])})
     conds.append({"name": "run_exception_twin", "fn": run_exception_twin, "timeout": t, "expect": "refute", "bounds": "reachability twin"})
     return conds
